@@ -80,7 +80,8 @@ def make_bulk_values_dict(record_values_pairs):
   return {
     # Whenever we are missing a value, use the original value from the col record.
     key: [values.get(key, getattr(rec, key)) for (rec, values) in record_values_pairs]
-    for key in all_keys
+    # Sorted, so that the result doesn't depend on the hash seed.
+    for key in sorted(all_keys)
   }
 
 
@@ -854,7 +855,7 @@ class UserActions(object):
       table = self._engine.tables[table_id]
       self._engine._update_table_model(table, table.user_table)
 
-    for table in rename_summary_tables:
+    for table in sorted(rename_summary_tables):
       groupby_col_ids = [c.colId for c in table.columns if c.summarySourceCol]
       new_table_id = summary.encode_summary_table_name(table.summarySourceTable.tableId,
                                                        groupby_col_ids)
@@ -882,7 +883,8 @@ class UserActions(object):
           # Get the views of those sections
           views = {s.parentId for s in sections if s.parentId is not None and s.parentId.id != 0}
           # Filter them by the old table name (which may be empty - than by tableId)
-          related_views = [v for v in views if v.name == (rec.title or rec.tableRef.tableId)]
+          related_views = [v for v in sorted(views)
+                           if v.name == (rec.title or rec.tableRef.tableId)]
           # Update the views immediately
           if related_views:
             self._docmodel.update(related_views, name=[values['title']] * len(related_views))
@@ -1157,9 +1159,9 @@ class UserActions(object):
 
     # Arguments for `BulkAddRecord` and `BulkUpdateRecord` below
     add_record_ids = []
-    add_record_values = {k: [] for k in col_keys | require_add_keys - {'id'}}
+    add_record_values = {k: [] for k in sorted(col_keys | require_add_keys - {'id'})}
     update_record_ids = []
-    update_record_values = {k: [] for k in col_keys - {'id'}}
+    update_record_values = {k: [] for k in sorted(col_keys - {'id'})}
 
     # Need a placeholder array so the values can be set by index later.
     result['recordIds'] = [[] for i in range(length)]
@@ -1433,7 +1435,7 @@ class UserActions(object):
     removed_col_refs = set((c.id for c in col_recs))
     re_sort_sections = []
     re_sort_specs = []
-    for section in parent_sections:
+    for section in sorted(parent_sections):
       # Only iterates once for each section. Updated sort removes all columns being deleted.
       sort = json.loads(section.sortColRefs) if section.sortColRefs else []
       updated_sort = [col_spec for col_spec in sort
